@@ -10,6 +10,12 @@ for ln in (ROOT / "properties.jsonl").read_text().splitlines():
 
 # claimed properties -> technique (the level text and note come from the props module itself)
 TECHNIQUE = {
+    "C19": "Lean 4 proof (fusion loop and lower_completely terminate \u2014 lowering relation regenerated from the source and proven acyclic by a checked rank; simplify exits at a fixpoint) + table correspondence + step-count/determinism/idempotence search",
+    "C16": "Lean 4 proof (reconstruct(reduce e) = e for all trees; observables independent of process-global caches per regenerated table) + __reduce__ correspondence + fresh-process unpickling search",
+    "C15": "Lean 4 proof (LRU refines a pure map for all histories; get-or-compute transparency; weak singleton table under arbitrary GC; regenerated cache-site table decided by the kernel) + exhaustive LRU op-sequence correspondence + session-history search against fresh interpreters",
+    "C14": "Lean 4 proof (fusion pass groups are GroupOK for every iteration order; fused sub-graph = unfused tasks incl. nested groups; termination measure) + correspondence of groups and fused sub-graphs + fuse-vs-nofuse per-partition search",
+    "C08": "Lean 4 proof (Merkle-name injectivity for all trees under injective tokens; regenerated name-rule table decided by the kernel) + single-operand-variation correspondence + cross-process/hash-seed search",
+    "C01": "Lean 4 proof (rewrite/simplify_once/simplify/lower_once/lower_completely/optimize_until preserve meaning for every sound rule system, any dependents map; no new failure) + exact correspondence of the real drivers on table-driven stub classes + traced firings + optimized-vs-unoptimized search",
     "C02": "Lean 4 proof (alg(parts)=spec(concat parts) for tree reduce, cumulative scan, overlap windows, blockwise with broadcast, shuffle-based reduce/join; all partitionings) + exact graph correspondence + all-cuts search against pandas",
     "C03": "Lean 4 proof (OR-factoring, squash/split, filter crossing per operator category, DNF + Kleene reader semantics, join-side legality; all trees/valuations) + regenerated flag table decided by the kernel + exact correspondence of the predicate/merge functions",
     "C04": "Lean 4 proof (labels/well-formedness/values per projection rule for any dependents list) + exact correspondence of every modelled _simplify_up/_simplify_down + regenerated flag tables",
